@@ -179,6 +179,14 @@ def cases(ctx):
         ("path.in_map_value.key_path", "Value.equal_to({'path': DataPath('ref'), 'j': a})", [("a", "int")]),
         ("path.in_map_value.key_suffix", "Value.equal_to({'Path.length': DataPath('a').length(), 'j': a})", [("a", "int")]),
         ("path.in_map_value.key_escaped", "Value.equal_to({'\\\\path': DataPath('ref'), 'j': a})", [("a", "int")]),
+        # the root (empty) path as an argument, bare and with modifiers, also inside list / mapping arguments
+        ("path.root", "Value.equal_to(DataPath())", []),
+        ("path.root.length", "Value.equal_to(DataPath().length())", []),
+        ("path.root.map_keys", "Value.in_(DataPath().map_keys())", []),
+        ("path.root.under_dtype", "Value.dtype.equal_to(DataPath().dtype())", []),
+        ("path.root.in_list", "Value.in_([i, DataPath().length()])", [("i", "int")]),
+        ("path.root.in_kwargs", "Value.items_contain(k=DataPath().length())", []),
+        ("path.root.in_tree", "Value.equal_to(i) | (Value.equal_to(DataPath().length()) & Value.is_instance(int))", [("i", "int")]),
         # 'path' more than once in one key
         ("literal.path_twice", "Value.equal_to({'path/subpath': a})", [("a", U)]),
         ("literal.path_twice.caps", "Value.in_([{'PATH to Path': a}, 1])", [("a", U)]),
